@@ -357,8 +357,7 @@ def rule_wiring(chk):
     # groups, sub-groups, their conditions and iteration loops nest in the generated compute() as the group tree says (rule shared with C03)
     c03.rule_top(chk, tpl)
     # the wrapper that `src.X` / `dst.X` resolve through must (re)bind every property AND every constant whenever an array is set
-    def pick(test):
-        return U(test) == 'len(group.data) > 0'
+    pick = c03.simplest
     lines2 = MT.skeleton(tpl.fn('__template__'), choose=pick)
     src2, table2 = MT.skeleton_source(lines2)
     try:
